@@ -6,10 +6,11 @@ Import ListNotations.
 Open Scope N_scope.
 
 (* SOUNDNESS. For every grammar of the C01 fragment (Any, SeqOf, Optional, Empty, End, Choice, Many, SepBy, SeqTry,
-   SeqFirstOrAll, memoized nonterminals, rune terminals; one Memoize site per index), every input, offset and fuel:
+   SeqFirstOrAll, memoized nonterminals, rune terminals AND the literal terminals of text/terminal (TLit, any parameters);
+   one Memoize site per index), every input, offset and fuel:
    every tree returned by a run from a fresh context is the yield of a valid derivation of the root from the first
-   byte, starts there, ends inside the file, and is span-well-formed (children contiguous, every leaf spells the byte
-   it consumed); the final cache holds only such trees.  No hypothesis on fuel, ambiguity or recursion shape. *)
+   byte, starts there, ends inside the file, and is span-well-formed (children contiguous, every rune leaf spells the byte
+   it consumed, every literal leaf ends at or after its start); the final cache holds only such trees.  No hypothesis on fuel, ambiguity or recursion shape. *)
 Theorem C01_sound :
   forall (inp : input) (rules : list pexpr) (site : N -> option pexpr),
   frag_rules rules ->
@@ -28,7 +29,7 @@ Theorem C01_sound :
 Proof. exact @Sound.C01_sound. Qed.
 Print Assumptions C01_sound.
 
-(* The rune leaves of every returned tree spell exactly the consumed slice of the file. *)
+(* The leaves of every returned tree (a rune leaf: its byte; a literal leaf: its lexeme, the bytes it spans) spell exactly the consumed slice of the file. *)
 Theorem C01_sound_spells :
   forall (inp : input) (rules : list pexpr) (site : N -> option pexpr),
   frag_rules rules ->
@@ -38,7 +39,7 @@ Theorem C01_sound_spells :
   frag root = true ->
   wf rules site root ->
   run inp rules fuel root = Ok (ns, cp, err, c) ->
-  forall n : node, In n ns -> leaves n = slice inp (i_offset inp) (node_rpos n).
+  forall n : node, In n ns -> leaves inp n = slice inp (i_offset inp) (node_rpos n).
 Proof. exact @Sound.C01_sound_spells. Qed.
 Print Assumptions C01_sound_spells.
 
@@ -73,7 +74,8 @@ Print Assumptions C01_sound_all.
    covers Choice, Many, SepBy, SeqTry and SeqFirstOrAll with their first-match / longest-path rules under stratification,
    which is covered by the correspondence and the executable oracle only (soundness above does cover them).
    COMPLETENESS INVARIANT (Frost-Hafiz-Callaghan curtailment with context-sensitive cache reuse), monotone fragment
-   (terminals, Empty, references, Memoize, Any, Optional, SeqOf; End-free): every valid derivation that is compatible
+   (terminals, Empty, references, Memoize, Any, Optional, SeqOf; End-free, which for a literal terminal also means that its node's
+   token is not "EOF" — seq.go recognises End by token, so terminal.Word("eof") counts as End): every valid derivation that is compatible
    with the empty left-recursion context (not cut by the curtailment bound) is in the result. *)
 Theorem C01_complete_invariant_partial :
   forall (inp : input) (rules : list pexpr) (site : N -> option pexpr),
